@@ -22,16 +22,16 @@ IonApplies(e) == /\ FGt(e.Z, FInt(90)) /\ e.ionPresent /\ e.tecTimes10 >= 0
 
 Check(e) ==
     CASE e.kind = "alt" ->
-        Fails(<< <<"radio: field at detector altitude Z = field at the 525 km reference x distance ratio (linear)",
+        Fails(<< <<"EXT: radio: field at detector altitude Z = field at the 525 km reference x distance ratio (linear)",
                    Len(e.efZ) = Len(e.efRef) /\
                    \A k \in 1..Len(e.efZ) : FClose(e.efZ[k], FMul(e.efRef[k], DistanceScale(e.alt, e.Z, e.beta, e.R)), FDec("1e-9"), FDec("1e-300"))>> >>)
       [] e.kind = "ion" ->
-        Fails(<< <<"radio: without applicable ionosphere parameters the field is bit-identical to the ionosphere-free field",
+        Fails(<< <<"EXT: radio: without applicable ionosphere parameters the field is bit-identical to the ionosphere-free field",
                    IonApplies(e) \/ e.on = e.off>>,
-                 <<"radio: applicable ionosphere parameters scale every bin by one positive factor (fixed TEC error draw)",
+                 <<"EXT: radio: applicable ionosphere parameters scale every bin by one positive factor (fixed TEC error draw)",
                    ~IonApplies(e) \/ (\A k \in 1..Len(e.on) : FEq(e.off[k], FZero) \/
                         (FGt(FDiv(e.on[k], e.off[k]), FZero) /\ FClose(FDiv(e.on[k], e.off[k]), e.ratio, FDec("1e-9"), FZero)))>>,
-                 <<"radio: applicable ionosphere parameters change the field", ~IonApplies(e) \/ ~e.anyNonZero \/ e.on # e.off>> >>)
+                 <<"EXT: radio: applicable ionosphere parameters change the field", ~IonApplies(e) \/ ~e.anyNonZero \/ e.on # e.off>> >>)
       [] e.kind = "band" ->
         Fails(<< <<"C20 number of field bins = number of 10 MHz centres inside the band", e.nfield = Cardinality(FieldBins(e.lo, e.hi))>>,
                  <<"C20 antenna-voltage bins = field bins (number and centre frequencies)", e.ant = SortedSeq(FieldBins(e.lo, e.hi))>>,
